@@ -201,7 +201,7 @@ def execute(scn, keep_log=False, hook=None):
                     submit(m)
                 finally:
                     nest[0] -= 1
-    bus.observers.append(on_tx)
+    bus.post_hooks.append(on_tx)
     for m in scn['msgs']:
         if m.get('on_tx') is None:
             sim.at(base + m['at_us'] * 1000, (lambda m=m: submit(m)), 'op')
